@@ -305,6 +305,61 @@ fn entry_family(acc: &mut Stats) {
     acc.count("entry_family_distinct_behaviours", distinct.len() as u64);
 }
 
+/// order must not decide acceptance of an ill-typed program either: type declarations that name each other (and
+/// themselves) x one definite mismatch against a declared field / payload type, under every order of the top-level
+/// statements - rejected in all of them or in none
+fn type_order_family(acc: &mut Stats) {
+    let decls = ["A :: blob { b: B }", "B :: blob { x: int }", "E :: enum\n    V B,\n    W,\nend", "L :: enum\n    Cons (int, L),\n    Nil,\nend"];
+    let uses: [(&str, &str, bool); 8] = [
+        ("blob field of a blob type", "a :: A { b: 1 }", false),
+        ("blob field given the right blob", "a :: A { b: B { x: 1 } }", true),
+        ("variant payload of a blob type", "e :: E.V 1", false),
+        ("variant payload given the right blob", "e :: E.V B { x: 1 }", true),
+        ("recursive enum payload", "l :: L.Cons (1, 2)", false),
+        ("recursive enum payload given the enum", "l :: L.Cons (1, L.Nil)", true),
+        ("absent field through a field", "a :: A { b: B { x: 1 } }\n    print(a.b.nope)", false),
+        ("annotation with a later type", "a: A = B { x: 1 }", false),
+    ];
+    for (uname, u, valid) in uses {
+        let start = format!("start :: fn do\n    {}\n    print(1)\nend", u);
+        let mut items: Vec<String> = decls.iter().map(|d| d.to_string()).collect();
+        items.push(start);
+        let mut accepted = Vec::new();
+        let mut rejected = Vec::new();
+        for perm in permutations(items.len()) {
+            let text = format!("print: fn *X -> void : external\n{}\n", perm.iter().map(|k| items[*k].clone()).collect::<Vec<_>>().join("\n"));
+            acc.evaluations += 1;
+            acc.transitions += 1;
+            match compile_src(&text) {
+                Outcome::Ok(_) => accepted.push(text),
+                _ => rejected.push(text),
+            }
+        }
+        acc.states += 1;
+        acc.nontrivial(fnv(uname.as_bytes()));
+        let ok = if valid { rejected.is_empty() } else { accepted.is_empty() };
+        if ok {
+            acc.outcome(if valid { "type-order:accepted-in-every-order" } else { "type-order:rejected-in-every-order" });
+        } else {
+            let (sig, witness) = if !accepted.is_empty() && !rejected.is_empty() {
+                ("accepted-in-some-orders-only", if valid { rejected[0].clone() } else { accepted[0].clone() })
+            } else if valid {
+                ("valid-program-rejected-in-every-order", rejected[0].clone())
+            } else {
+                ("ill-typed-program-accepted-in-every-order", accepted[0].clone())
+            };
+            acc.outcome(sig);
+            acc.fail(Failure {
+                sig: sig.into(),
+                preds: vec!["type-declaration-order".into()],
+                detail: format!("{}: {} orders accepted, {} rejected; {}:\n{}", uname, accepted.len(), rejected.len(), if valid { "a rejected order" } else { "an accepted order" }, witness),
+                case: json!({"engine": "c11-types", "files": files_json(&witness), "expect_accept": valid}),
+                size: witness.len(),
+            });
+        }
+    }
+}
+
 fn ext() -> Top {
     Top::External { name: "print".into(), ty: "fn *X -> void".into() }
 }
@@ -555,7 +610,8 @@ pub fn run(run: &mut Run) {
     });
     run.stats = Stats::merge_all(accs);
     entry_family(&mut run.stats);
-    run.rule = "programs with 3 (thorough: also 4) mutable globals whose initialisers are related by up to k edges, each edge one of: read, read inside a called function, read inside a function that is only stored, assignment / compound assignment inside a called function, blob literal field (up to k edges), or a read wrapped in one of 38 further forms (then / else / condition, case scrutinee / arm / else, tuple, list, call argument, unary, and-operand, variant payload, index, immediately called lambda - each directly in the initialiser and inside a function it calls; else-branch / loop body / loop condition / nested block / early ret / inner closure / nested call inside a called function, a method of a blob literal called at once, a read / an assignment in a method of a global blob instance, function alias; alone and combined with one plain read); every permutation of the top-level statements (blob declaration, globals, start) x helper functions before / after, plus the same program with one global moved to an imported file (cyclic import) under every order of that file and a sample of main's orders; plus a three-file project whose modules define their own `start` and `g` under every order of each file's statements (4! x 3! x 4! orders); non-trivial = every labelling that is not inherently order-dependent; distinct by edge labelling".into();
+    type_order_family(&mut run.stats);
+    run.rule = "programs with 3 (thorough: also 4) mutable globals whose initialisers are related by up to k edges, each edge one of: read, read inside a called function, read inside a function that is only stored, assignment / compound assignment inside a called function, blob literal field (up to k edges), or a read wrapped in one of 38 further forms (then / else / condition, case scrutinee / arm / else, tuple, list, call argument, unary, and-operand, variant payload, index, immediately called lambda - each directly in the initialiser and inside a function it calls; else-branch / loop body / loop condition / nested block / early ret / inner closure / nested call inside a called function, a method of a blob literal called at once, a read / an assignment in a method of a global blob instance, function alias; alone and combined with one plain read); every permutation of the top-level statements (blob declaration, globals, start) x helper functions before / after, plus the same program with one global moved to an imported file (cyclic import) under every order of that file and a sample of main's orders; plus a three-file project whose modules define their own `start` and `g` under every order of each file's statements (4! x 3! x 4! orders); plus four type declarations that name each other and themselves with one of 8 uses (4 ill-typed, 4 well-typed) under all 120 orders: accepted in all or in none; non-trivial = every labelling that is not inherently order-dependent; distinct by edge labelling".into();
     run.bounds = json!({"globals": if thorough {"3 with <=3 edges, 4 with <=2 edges"} else {"3 with <=2 edges"}, "labelings": labs.len(), "edge_kinds": KINDS.iter().chain(WRAPPED.iter()).chain(STMT_IN_FN.iter()).map(|k| format!("{:?}", k)).chain(VIA_FN.iter().map(|w| format!("ViaFn({:?})", WRAPPED[*w as usize]))).collect::<Vec<_>>()});
     run.assumptions = vec![
         "reference: RefSylt under every order of the value globals; orders that read or assign an uninitialised global are invalid; if the valid orders disagree the program is inherently order-dependent and excluded; if no order is valid the initialisers are cyclic".into(),
@@ -564,6 +620,12 @@ pub fn run(run: &mut Run) {
 }
 
 pub fn replay(case: &serde_json::Value) -> Option<(String, String)> {
+    if case["engine"] == "c11-types" {
+        let text = case["files"][MAIN].as_str()?;
+        let want = case["expect_accept"].as_bool()?;
+        let got = compile_src(text).is_ok();
+        return if got == want { None } else { Some(("accepted-in-some-orders-only".into(), format!("accepted={} in this order", got))) };
+    }
     let mut files = Files::new();
     for (k, v) in case["files"].as_object()? {
         files.insert(k.clone(), v.as_str()?.to_string());
